@@ -771,10 +771,14 @@ def run(ctx) -> dict:
             'type of the right length (the judgement code is string-driven, so a malformed '
             'signature silently changes matching); the item types a built-in function is '
             'annotated to return are within its declared return type; the atomic hierarchy used '
-            'by is_instance equals XSD\'s (R10.1).',
+            'by is_instance equals XSD\'s (R10.1); the evaluators of `instance of` / `treat as` '
+            'judge each item of their operand with the kind test and do not let the occurrence '
+            'indicator relax an item mismatch (R18.8); what is built as xs:double is a plain '
+            'float on every path of the construction chain (R18.9).',
         'not_decided':
-            '`instance of` / `treat as` on values, reflexivity and transitivity of the '
-            'string-driven subtype test (is_sequence_type_restriction), and cardinality of '
+            'The item matching itself (match_sequence_type / the kind tests on values), '
+            'reflexivity and transitivity of the string-driven subtype test '
+            '(is_sequence_type_restriction) beyond function-type variance, and cardinality of '
             'returned sequences.',
         'assumptions': ['γ table in c18_seqtypes.py', 'annotations are enforced by the '
                         'repository\'s mypy configuration (not re-run in the quick tier)'],
